@@ -13,7 +13,19 @@ def gen_C15():
         raise C.HarnessError("tag_formatter.TAG_CHARS / TAG_RE: unexpected shape")
     if not isinstance(tf.component_formatter, tf.ComponentFormatter) or not isinstance(tf.component_formatter.tag, str):
         raise C.HarnessError("tag_formatter.component_formatter: unexpected shape")
-    return ("Definition protected_tags : list str := %s.\n"
+    # code points >= 128 accepted by the compiled TAG_RE as a one-character tag (Python's \w is Unicode-aware): inclusive ranges
+    ranges, lo = [], None
+    for c in range(128, 0x110000 + 1):
+        ok = c < 0x110000 and tf.TAG_RE.match(chr(c)) is not None
+        if ok and lo is None:
+            lo = c
+        elif not ok and lo is not None:
+            ranges.append((lo, c - 1))
+            lo = None
+    if not (100 < len(ranges) < 5000):
+        raise C.HarnessError("TAG_RE: unexpected number of accepted ranges above 127: %d" % len(ranges))
+    hi = "Definition tag_ranges_hi : list (N * N) := [%s]%%N.\n" % "; ".join("(%d, %d)" % r for r in ranges)
+    return (hi + "Definition protected_tags : list str := %s.\n"
             "Definition tag_chars : str := %s.\n"
             "Definition tag_re_pattern : str := %s.\n"
             "Definition tag_re_flags : N := %d%%N.\n"
